@@ -325,6 +325,10 @@ class AST2SCFGTransformer:
         """
         for node in tree:
             self.handle_ast_node(node)
+            if isinstance(node, (ast.Return, ast.Break, ast.Continue)):
+                # Anything that follows in the same suite is unreachable and
+                # must not hide the terminator from the sealing of the block.
+                break
 
     def handle_ast_node(self, node: type[ast.AST] | ast.stmt) -> None:
         """Dispatch an AST node to handle."""
